@@ -64,6 +64,10 @@ type Path struct {
 	pcNeg      map[*smt.Term]bool
 	pcNames    map[string]bool
 	pcNegNames map[string]bool
+	pcEntries  []pcEntry
+	varIdx     map[string]int
+	varMemo    map[*smt.Term][]int
+	uf         []int
 	occ        map[string]int
 	inputs     []InputRec
 	steps      int
@@ -110,7 +114,14 @@ func (p *Path) assume(c *smt.Term) {
 			p.pcSet[a] = true
 		}
 	}
-	p.sess.Assert(c)
+	vs := p.termVars(c)
+	for i := 1; i < len(vs); i++ {
+		a, b := p.find(vs[0]), p.find(vs[i])
+		if a != b {
+			p.uf[b] = a
+		}
+	}
+	p.pcEntries = append(p.pcEntries, pcEntry{c, vs})
 	n := p.sess.Name(c)
 	p.pcNames[n] = true
 	if x, ok := p.sess.P.NegOf[n]; ok {
@@ -147,9 +158,91 @@ func (p *Path) decided(c *smt.Term) (bool, bool) {
 	return false, false
 }
 
+// termVars returns the indices of the solver variables occurring in t.
+func (p *Path) termVars(t *smt.Term) []int {
+	if vs, ok := p.varMemo[t]; ok {
+		return vs
+	}
+	var vs []int
+	switch t.Op {
+	case smt.OpConst:
+	case smt.OpVar:
+		i, ok := p.varIdx[t.Name]
+		if !ok {
+			i = len(p.uf)
+			p.varIdx[t.Name] = i
+			p.uf = append(p.uf, i)
+		}
+		vs = []int{i}
+	default:
+		seen := map[int]bool{}
+		for _, a := range t.Args {
+			for _, v := range p.termVars(a) {
+				if !seen[v] {
+					seen[v] = true
+					vs = append(vs, v)
+				}
+			}
+		}
+	}
+	p.varMemo[t] = vs
+	return vs
+}
+
+func (p *Path) find(i int) int {
+	for p.uf[i] != i {
+		p.uf[i] = p.uf[p.uf[i]]
+		i = p.uf[i]
+	}
+	return i
+}
+
+// slice returns the path-condition conjuncts that share (transitively) a
+// variable with ts. Since the path condition is kept satisfiable, the other
+// conjuncts cannot influence the answer (constraint independence).
+func (p *Path) pcSlice(ts ...*smt.Term) []*smt.Term {
+	roots := map[int]bool{}
+	for _, t := range ts {
+		if t == nil {
+			continue
+		}
+		for _, v := range p.termVars(t) {
+			roots[p.find(v)] = true
+		}
+	}
+	var out []*smt.Term
+	for _, e := range p.pcEntries {
+		if len(e.vars) > 0 && roots[p.find(e.vars[0])] {
+			out = append(out, e.t)
+		}
+	}
+	return out
+}
+
+// check asks whether PC ∧ extra is satisfiable, sending only the relevant slice.
 func (p *Path) check(extra *smt.Term) smt.Result {
-	r := p.sess.Check(extra)
-	return r
+	if extra == nil || p.in.NoSlice {
+		return p.checkFull(extra)
+	}
+	cs := p.pcSlice(extra)
+	return p.sess.Check(append(cs, extra)...)
+}
+
+// checkFull sends the whole path condition (used when a complete model is needed).
+func (p *Path) checkFull(extra *smt.Term) smt.Result {
+	cs := make([]*smt.Term, 0, len(p.pcEntries)+1)
+	for _, e := range p.pcEntries {
+		cs = append(cs, e.t)
+	}
+	if extra != nil {
+		cs = append(cs, extra)
+	}
+	return p.sess.Check(cs...)
+}
+
+type pcEntry struct {
+	t    *smt.Term
+	vars []int
 }
 
 // branch decides a symbolic condition, forking when both sides are feasible.
@@ -222,10 +315,15 @@ func (p *Path) concretize(t *smt.Term, signed bool, what string) int64 {
 		p.cursor++
 	} else {
 		const capN = 600
+		p.sess.Name(t)
 		var vals []int64
 		block := smt.True
 		for {
-			r := p.check(block)
+			r := p.check(smt.And(block, smt.Eq(t, t)))
+			if block.IsTrue() {
+				p.sess.PopCheck()
+				r = p.sess.Check(append(p.pcSlice(t), smt.True)...)
+			}
 			if r == smt.Unknown {
 				p.sess.PopCheck()
 				p.abortf("solver unknown while concretising %s", what)
@@ -331,6 +429,8 @@ func (p *Path) assert(c *smt.Term, label string) {
 		// inside the region: check separately and mark
 		r := p.check(smt.And(pred, smt.Not(c)))
 		if r == smt.Sat {
+			p.sess.PopCheck()
+			p.checkFull(smt.And(pred, smt.Not(c)))
 			krec := AssertRec{Label: label, Verdict: "sat", Known: id, Model: p.model()}
 			p.sess.PopCheck()
 			p.res.Asserts = append(p.res.Asserts, krec)
@@ -353,7 +453,14 @@ func (p *Path) assert(c *smt.Term, label string) {
 			rec.Verdict = "unsat"
 		case smt.Sat:
 			rec.Verdict = "sat"
-			rec.Model = p.model()
+			p.sess.PopCheck()
+			if p.checkFull(smt.Not(c)) == smt.Sat {
+				rec.Model = p.model()
+			} else {
+				p.sess.PopCheck()
+				p.check(smt.Not(c))
+				rec.Model = p.model()
+			}
 		default:
 			rec.Verdict = "unknown"
 		}
